@@ -80,13 +80,26 @@ impl FromStr for Q {
         Ok(Q::R(BigRational::new(n, d)))
     }
 }
+thread_local! {
+    static FROM_CALLS: std::cell::Cell<u64> = const { std::cell::Cell::new(0) };
+}
+/// number of From<u8>/From<f32> conversions requested from Q / Fe on this thread: only
+/// differentiation and the neutral-element shortcuts create numbers this way ("work")
+pub fn from_calls() -> u64 {
+    FROM_CALLS.with(|c| c.get())
+}
+fn bump_from() {
+    FROM_CALLS.with(|c| c.set(c.get() + 1));
+}
 impl From<u8> for Q {
     fn from(v: u8) -> Self {
+        bump_from();
         Q::int(v as i64)
     }
 }
 impl From<f32> for Q {
     fn from(v: f32) -> Self {
+        bump_from();
         match BigRational::from_float(v) {
             Some(r) => Q::R(r),
             None => Q::Undef,
@@ -173,6 +186,11 @@ fn un_k<T: Num, const K: usize>(a: T) -> T {
 /// operator factory with the names, priorities and flags of FloatOpsFactory for any `Num`
 #[derive(Clone, Debug)]
 pub struct NumOps<T>(std::marker::PhantomData<T>);
+impl<T> PartialEq for NumOps<T> {
+    fn eq(&self, _: &Self) -> bool {
+        true
+    }
+}
 impl<T: Num + exmex::DataType> MakeOperators<T> for NumOps<T> {
     fn make<'a>() -> Vec<Operator<'a, T>> {
         let b = |apply: fn(T, T) -> T, prio: i64, is_commutative: bool| BinOp { apply, prio, is_commutative };
@@ -241,11 +259,13 @@ impl FromStr for Fe {
 }
 impl From<u8> for Fe {
     fn from(v: u8) -> Self {
+        bump_from();
         Fe::exact(v as f64)
     }
 }
 impl From<f32> for Fe {
     fn from(v: f32) -> Self {
+        bump_from();
         Fe::exact(v as f64)
     }
 }
